@@ -2,4 +2,4 @@ From Coq Require Import Extraction ExtrOcamlBasic.
 From Texel Require Import Chess.Types gen.RootConsts Root.Root.
 Extraction Language OCaml.
 Extraction "root_model.ml" startMoves startThreadLimits getRootMoves notifyPV extractPVMoves getPonderMove
-  formatScore iterativeDeepening engineAnswer.
+  formatScore iterativeDeepeningFrom iterativeDeepening engineAnswer.
